@@ -273,6 +273,7 @@ NextP(UsePolicy) ==
   \/ \E th \in LiveAtk, hh \in LiveH \cup {x \in vDead : vGone[x].name # NONE}, s \in StepPool : RemoveEntryPoint(th, hh, s)
 Next == NextP(FALSE)
 Spec == Init /\ [][Next]_mvars
+PolicySpec == Init /\ [][NextP(TRUE)]_mvars      \* free choices refined to the documented policy
 
 (* ------------------- the model value seen by Sem ------------------------ *)
 ModelVal == [type  |-> [hh \in LiveH |-> TypeOfH(hh)],
@@ -324,5 +325,6 @@ RemovedLeavesNoTrace ==
         /\ a.name \notin {vAssets'[k].name : k \in DOMAIN vAssets'}
         /\ \A k \in DOMAIN vAssocs' : a.h \notin Range(vAssocs'[k].l) \cup Range(vAssocs'[k].r)
         /\ \A k \in DOMAIN vAtk' : \A i \in DOMAIN vAtk'[k].ep : vAtk'[k].ep[i].a # a.h]_mvars
+RejUnchangedP == [][vAct'.res = "exc" => UNCHANGED pvars]_mvars
 StateView == <<vAssets, vAssocs, vAtk, vDead, vDeadAs, vDeadAtk, vGone, vNextId, vNextH>>
 =============================================================================
